@@ -322,16 +322,17 @@ namespace
 
     // Both cooked and raw DIE's have parents (unless they don't, in
     // which case we are already at root).  But for cooked DIE's,
-    // when the parent is partial unit root, we need to traverse
-    // further along the import chain.
+    // when the parent is the root of an imported unit (a partial
+    // unit, or a normal one: DW_AT_import may name either), we need
+    // to traverse further along the import chain.
     Dwarf_Die par_die;
     do
       if (! get_parent (*a, par_die))
 	return nullptr;
     while (d == doneness::cooked
-	   // Import another partial unit if possible, and keep
-	   // looking for the actual parent.
-	   && dwarf_tag (&par_die) == DW_TAG_partial_unit
+	   // Import another unit if possible, and keep looking for
+	   // the actual parent.
+	   && a->get_dwctx ()->is_root (par_die)
 	   && a->get_import () != nullptr
 	   && (a = a->get_import ().get ()));
 
